@@ -3,7 +3,7 @@ import math
 import random
 
 from vf import import_desper
-from vf.core import Res
+from vf.core import Res, HarnessError
 
 ID = 'C12'
 LEVEL = 'exploration'
@@ -14,7 +14,8 @@ RULE = ('1-6 counting handles stored in a ResourceMap at plain and nested '
         'per load; access sequences mixing h(), m["a/b"], m["a"]["b"], '
         'static-map attribute and item access, get(p)(), SimpleLoop.switch/'
         'Loop.switch with every clear_current/clear_next combination for '
-        'world handles, interleaved with h.clear(). Oracle per handle: the '
+        'world handles, interleaved with h.clear() and with loads that fail '
+        'once (exception caught, handle cleared, program carries on). Oracle per handle: the '
         'load counter moves exactly when `cached` (read before every access) '
         'was False, every access of an epoch returns the identical object '
         'load() returned, after clear() the next access loads afresh. '
@@ -62,6 +63,12 @@ def gen_one(rng, tier):
             op += [rng.random() < 0.5, rng.random() < 0.5,
                    rng.random() < 0.5]
         ops.append(op)
+    if rng.random() < 0.25:
+        # a load that fails once (the program catches the exception, clears
+        # the handle and carries on)
+        for _ in range(rng.randint(1, 2)):
+            ops.insert(rng.randrange(len(ops) + 1),
+                       ['fail_load', rng.randrange(len(handles))])
     return {'handles': handles, 'ops': ops}
 
 
@@ -143,6 +150,10 @@ def run_case(case):
 
         def load(self):
             self.loads += 1
+            if self.fail_next:
+                self.fail_next = False
+                self.fault = HarnessError(f'load of handle {self.uid} failed')
+                raise self.fault
             if self.dep is not None:
                 nested.append(self.dep)
                 hs[self.dep]()
@@ -156,6 +167,8 @@ def run_case(case):
     for i, spec in enumerate(case['handles']):
         h = CH(i, make_factory(desper, spec['value']))
         h.dep = spec.get('dep')
+        h.fail_next = False
+        h.fault = None
         root[spec['path']] = h
         hs.append(h)
     loaded = [False] * len(hs)      # model: is the handle cached
@@ -292,6 +305,32 @@ def run_case(case):
             if bool(hs[i].cached) is not loaded[i]:
                 res.div(at, 'cached-mismatch', f'handle {i}.cached',
                         loaded[i], hs[i].cached)
+                break
+        elif kind == 'fail_load':
+            if loaded[i]:
+                continue            # nothing would be loaded
+            h = hs[i]
+            h.fail_next = True
+            before = h.loads
+            try:
+                h()
+                outcome = 'returned'
+            except HarnessError as ex:
+                outcome = 'raised' if ex is h.fault else f'other {ex!r}'
+            except Exception as ex:
+                outcome = f'other {type(ex).__name__}: {ex}'
+            res.stats['failed_loads'] += 1
+            if outcome != 'raised' or h.loads != before + 1:
+                res.div(at, 'failed-load', f'handle {i}: a load() that raises '
+                        'must run once and its exception reach the caller',
+                        ['raised', 1], [outcome, h.loads - before])
+                break
+            # what `cached` says now and whether a further access would
+            # retry is not stated; after clear() the next access loads afresh
+            do_clear(i)
+            if bool(h.cached) is not False:
+                res.div(at, 'cached-mismatch', f'handle {i}.cached after a '
+                        'failed load and clear()', False, h.cached)
                 break
         elif kind == 'clear':
             do_clear(i)
